@@ -423,6 +423,17 @@ class SchemaGen(object):
                 f = self.field_pool[rng.choice(sorted(self.field_pool))]
                 if not o.field(f.name):
                     o.fields.append(f)
+        # homonyms: one field name with different leaf types on two object types (legal as long as no
+        # shared interface declares it). Operation generators never select them on their own: only the
+        # rule-break operators do (same response name, different shapes on types that exclude each other)
+        if len(objs) >= 2 and rng.random() < 0.4:
+            a, b = rng.sample(objs, 2)
+            name = self.fresh("homonym")
+            ta, tb = rng.sample(["Int", "String", "Boolean", "Float"], 2)
+            for o, tn in ((a, ta), (b, tb)):
+                f = SField(name, named(tn))
+                f.homonym = True
+                o.fields.append(f)
         # every interface needs at least one implementation to be useful; add one if none
         for i in ifaces:
             if not s.possible_types(i.name):
